@@ -642,11 +642,15 @@ func main() {
 	lb.Reset()
 	lb.WriteString(hdr + "namespace CtyModel.Generated\n\n")
 	fmt.Fprintf(&lb, "/-- cty/msgpack: longest string prefix carried by an unknown-value refinement -/\ndef msgpackMaxPrefixLength : Nat := %d\n", intConst(mp, "maxPrefixLength"))
-	fmt.Fprintf(&lb, "/-- cty/msgpack: an unknown-value extension body longer than this is rejected (`extLen > N`) -/\ndef msgpackMaxExtLen : Nat := %d\n", cmpConst(mp, "extLen", ">"))
+	maxExt := cmpConst(mp, "extLen", ">")
+	fmt.Fprintf(&lb, "/-- cty/msgpack: an unknown-value extension body longer than this is rejected (`extLen > N`) -/\ndef msgpackMaxExtLen : Nat := %d\n", maxExt)
 	sl := parseDir(filepath.Join(*repo, "cty/function/stdlib"))
 	fmt.Fprintf(&lb, "/-- stdlib setproduct: per-argument and total length thresholds of the unknown-length refinement -/\ndef setproductArgMaxLen : Nat := %d\ndef setproductMaxLength : Nat := %d\n", cmpConst(sl, "argMaxLen", ">"), cmpConst(sl, "maxLength", ">"))
+	lb.WriteString(limitsExtra(*repo, mp)) // d17: jsonImpliedTypeDepthLimit, msgpackAllocHintMax (allocs.go)
 	lb.WriteString("\nend CtyModel.Generated\n")
 	writeIfChanged(filepath.Join(*leanDir, "Limits.lean"), lb.String())
+	// d17: every make( call of the two wire decoders, with the provenance of its sizes (allocs.go)
+	fmt.Printf("ctyextract: %d make( sites of cty/msgpack and cty/json classified (Generated/DecoderAllocs.lean)\n", writeDecoderAllocs(*repo, *leanDir, hdr, mp, maxExt))
 	writeIntBounds(*repo, *leanDir, hdr) // C18: gocty integer bound tables (intbounds.go)
 	fmt.Printf("ctyextract: %d buffer events of cty/json marshal/marshalDynamic\n", writeJsonEmit(*repo, *leanDir, hdr)) // C15 (jsonemit.go)
 
